@@ -35,6 +35,7 @@ import (
 	"strings"
 	"sync"
 	"sync/atomic"
+	"syscall"
 	"time"
 
 	"github.com/spf13/afero"
@@ -60,6 +61,8 @@ const (
 	sigHbSlow     = "heartbeat-not-refreshed-every-period"
 	sigHbTime     = "sign-of-life-timestamp-not-current"
 	sigUnreadable = "stale-on-unreadable-sign-of-life"
+	sigHbStopped  = "heartbeat-stopped-after-transient-fault"
+	sigHbUndead   = "heartbeat-continues-after-context-cancelled"
 	sigOpOutcome  = "operation-outcome-unexpected"
 )
 
@@ -84,6 +87,8 @@ type recOp struct {
 	Data  string
 	Flag  int
 	N     int
+	// Injected: the operation never reached the back end, the shim hook failed it (recorded by the hook itself)
+	Injected bool
 }
 
 type recFs struct {
@@ -491,6 +496,13 @@ type scenario struct {
 	Death    bool    `json:"ends_by_death,omitempty"`
 	Load     bool    `json:"load,omitempty"`
 	Seed     int64   `json:"seed,omitempty"`
+	// faulthold: transient faults of the heartbeat writer; canceldeath: death by context cancellation
+	FaultKind string `json:"fault_kind,omitempty"` // open | write | chtimes
+	Errno     string `json:"errno,omitempty"`      // EIO | ENOSPC | EMFILE
+	At        int    `json:"at_iteration,omitempty"`
+	NFaults   int    `json:"faults,omitempty"`
+	Acquire   string `json:"acquire,omitempty"` // TryLock | Lock | LockWithTimeout
+	After     int    `json:"cancel_after_periods,omitempty"`
 }
 
 var root string
@@ -532,8 +544,24 @@ func holderEvents(w *world, ops []recOp) (evs []hEv, shapeOK bool, why string) {
 		}
 	}
 	st := 0 // 0 expect Mkdir, 1 ChtimesDir, 2 Create, 3 Write, 4 ChtimesHb
+	faulted, created := false, false
 	for _, o := range ops {
 		if o.Err {
+			if o.Injected {
+				// a transient fault injected by the hook: that sign of life is lost, the iteration goes on
+				switch o.Name {
+				case "OpenFile", "f.Write":
+					st = 4
+				case "Chtimes":
+					st = 2
+				}
+				faulted = true
+				continue
+			}
+			if o.Name == "Chtimes" && o.Path == w.hbP && faulted && !created {
+				st = 2
+				continue // Chtimes of a heartbeat file that an injected open fault never let exist
+			}
 			if (o.Name == "OpenFile" || o.Name == "f.Write" || o.Name == "Chtimes") && st >= 1 && len(evs) > 0 {
 				return evs, shapeOK, why // the lock was removed under the holder (or similar): the hold ends here
 			}
@@ -562,6 +590,7 @@ func holderEvents(w *world, ops []recOp) (evs []hEv, shapeOK bool, why string) {
 				bad("heartbeat file not opened with O_CREATE|O_TRUNC")
 			}
 			evs = append(evs, hEv{Kind: "Create", B: o.B, E: o.E})
+			created = true
 			st = 3
 		case o.Name == "f.Write" && o.Path == w.hbP:
 			if st != 3 {
@@ -644,6 +673,7 @@ func checkTimestamps(evs []hEv, sc scenario) {
 				fail(sigHbTime, fmt.Sprintf("heartbeat payload time and modification time differ by %.3f ms", float64(payloadNow-e.Val)/1e6), sc)
 				return
 			}
+			payloadNow = 0
 			prevEnd = e.E
 		}
 	}
@@ -715,70 +745,167 @@ func shapeBroken(why string, sc scenario) {
 	}
 	count("holder-operations-not-those-of-the-model")
 	note("holder operations differ from the model's holder machine: " + why)
-	addCase(h.App("CHolder", h.Z(periodNs), "0", "(mkAcq (-1) 0 0)", "[]", h.Nat(0), "[]"),
+	addCase(h.App("CHolder", h.Z(periodNs), "0", "(mkAcq (-1) 0 0)", "[]", h.Nat(0), "[]", "None", "None"),
 		map[string]any{"kind": "holder-shape-broken", "why": why, "scenario": sc})
 }
 
 // holderCase: the recorded operations as a run of the holder machine with the measured latencies (landing = end
-// of the operation).  ok=false when the record cannot be expressed (then the caller reports the shape).
-func holderCase(w *world, evs []hEv) (term string, maxGap int64, minStep int64, iters int, ok bool) {
-	if len(evs) == 0 || evs[0].Kind != "Mkdir" {
-		return "", 0, 0, 0, false
+// of the operation) and the injected faults.  cancelAt != 0: the instant at which the holder's context was
+// cancelled.  ok=false when the record cannot be expressed (then the caller reports the broken tie).
+type hIter struct {
+	now, openB, openE, writeE, chE int64
+	fault                          string // "", open, write, chtimes
+	created, written, stamped      bool
+}
+
+func holderCase(w *world, ops []recOp, cancelAt, aliveUntil int64) (term string, maxGap int64, minStep int64, iters int, ok bool) {
+	var t0 int64
+	haveMk := false
+	var chDir *recOp
+	var its []*hIter
+	var cur *hIter
+	exists := false
+	stage := 0
+	no := func() (string, int64, int64, int, bool) { return "", 0, 0, 0, false }
+loop:
+	for idx := range ops {
+		o := ops[idx]
+		if o.Err && !o.Injected {
+			switch {
+			case o.Name == "Chtimes" && o.Path == w.hbP && cur != nil && cur.fault == "open" && !exists && cur.chE == 0:
+				cur.chE = o.E // Chtimes of a file that never existed
+				if o.T != 0 {
+					cur.now = o.T
+				}
+			case (o.Name == "OpenFile" || o.Name == "f.Write" || o.Name == "Chtimes") && haveMk:
+				break loop // the lock was removed under the holder
+			}
+			continue
+		}
+		switch {
+		case o.Name == "Mkdir" && o.Path == w.lockP:
+			if haveMk {
+				break loop
+			}
+			haveMk, t0, stage = true, o.E, 1
+		case o.Name == "Chtimes" && o.Path == w.lockP:
+			if stage != 1 {
+				return no()
+			}
+			c := o
+			chDir, stage = &c, 2
+		case o.Name == "OpenFile" && o.Path == w.hbP:
+			if stage != 2 || (cur != nil && cur.chE == 0) {
+				return no()
+			}
+			cur = &hIter{openB: o.B, openE: o.E}
+			if o.Injected {
+				cur.fault = "open"
+			} else {
+				if o.Flag&os.O_CREATE == 0 || o.Flag&os.O_TRUNC == 0 {
+					return no()
+				}
+				cur.created, exists = true, true
+			}
+			its = append(its, cur)
+		case o.Name == "f.Write" && o.Path == w.hbP:
+			if cur == nil || cur.writeE != 0 || cur.fault != "" || cur.chE != 0 {
+				return no()
+			}
+			cur.writeE = o.E
+			if n := parseNow(o.Data); n != 0 {
+				cur.now = n
+			}
+			if o.Injected {
+				cur.fault = "write"
+			} else {
+				cur.written = true
+			}
+		case o.Name == "Chtimes" && o.Path == w.hbP:
+			if cur == nil || cur.chE != 0 || (cur.fault == "" && cur.writeE == 0) {
+				return no()
+			}
+			cur.chE = o.E
+			if o.Injected {
+				if cur.fault != "" {
+					return no()
+				}
+				cur.fault = "chtimes"
+			} else {
+				cur.stamped = true
+				cur.now = o.T
+			}
+		case o.Name == "Remove" || o.Name == "RemoveAll":
+			break loop
+		}
 	}
-	t0 := evs[0].E
-	var obs []string
-	obs = append(obs, evTerm(w, t0, "ODir", t0, t0))
+	if !haveMk {
+		return no()
+	}
+	obs := []string{evTerm(w, t0, "ODir", t0, t0)}
 	k := 1
 	aNow, aCh, aSpawn := int64(0), int64(0), int64(0)
-	i := 1
-	if len(evs) > 1 && evs[1].Kind == "ChtimesDir" {
-		aNow = evs[1].Val - t0
-		aCh = evs[1].E - evs[1].Val
-		obs = append(obs, evTerm(w, evs[1].E, "ODir", evs[1].Val, evs[1].Val))
+	prevEnd := t0
+	if chDir != nil {
+		aNow, aCh = chDir.T-t0, chDir.E-chDir.T
+		obs = append(obs, evTerm(w, chDir.E, "ODir", chDir.T, chDir.T))
 		k++
-		i = 2
-	} else if len(evs) > 1 {
-		return "", 0, 0, 0, false
+		prevEnd = chDir.E
 	}
 	var cycs []string
-	prevEnd := int64(0) // start of the next iteration according to the machine, minus its sleep slack
-	if i == 2 {
-		prevEnd = evs[1].E
-	}
-	first := true
 	var prevNow int64
 	minStep = 1 << 62
-	for i < len(evs) {
-		if evs[i].Kind != "Create" {
-			return "", 0, 0, 0, false
+	starts := 0
+	for i, it := range its {
+		last := i == len(its)-1
+		s := it.now
+		if s == 0 {
+			s = it.openB // unknown (the iteration died before writing it anywhere): the latest it can have been
 		}
-		s := evs[i].Now
-		cOpen := evs[i].E - s
-		cWrite, cCh := int64(0), int64(0)
-		obs = append(obs, evTerm(w, evs[i].E, "OHb", evs[i].E, s))
-		k++
-		last := evs[i].E
-		n := 1
-		if i+1 < len(evs) && evs[i+1].Kind == "Write" {
-			cWrite = evs[i+1].E - evs[i].E
-			obs = append(obs, evTerm(w, evs[i+1].E, "OHb", evs[i+1].E, s))
-			k++
-			n = 2
-			last = evs[i+1].E
-			if i+2 < len(evs) && evs[i+2].Kind == "ChtimesHb" {
-				cCh = evs[i+2].E - evs[i+1].E
-				obs = append(obs, evTerm(w, evs[i+2].E, "OHb", s, s))
-				k++
-				n = 3
-				last = evs[i+2].E
+		cOpen, cWrite, cCh := it.openE-s, int64(0), int64(0)
+		end := it.openE
+		f := "FNone"
+		switch it.fault {
+		case "":
+			if it.writeE != 0 {
+				cWrite, end = it.writeE-it.openE, it.writeE
+				if it.chE != 0 {
+					cCh, end = it.chE-it.writeE, it.chE
+				}
 			}
+			if it.chE == 0 && !last {
+				return no()
+			}
+		case "open":
+			f = "FOpen"
+			if it.chE != 0 {
+				cCh, end = it.chE-it.openE, it.chE
+			}
+		case "write":
+			f = "FWrite"
+			cWrite, end = it.writeE-it.openE, it.writeE
+			if it.chE != 0 {
+				cCh, end = it.chE-it.writeE, it.chE
+			}
+		case "chtimes":
+			f = "FChtimes"
+			cWrite, cCh, end = it.writeE-it.openE, it.chE-it.writeE, it.chE
 		}
-		// slack of the PREVIOUS step (spawn latency or over-sleep) = s - (previous end [+ period - 1ms])
-		if first {
+		if it.created {
+			obs = append(obs, evTerm(w, it.openE, "OHb", it.openE, s))
+			k++
+		}
+		if it.written {
+			obs = append(obs, evTerm(w, it.writeE, "OHb", it.writeE, s))
+			k++
+		}
+		if it.stamped {
+			obs = append(obs, evTerm(w, it.chE, "OHb", s, s))
+			k++
+		}
+		if i == 0 {
 			aSpawn = s - prevEnd
-			first = false
 		} else {
-			// patch the previous cycle's c_sleep
 			sl := s - prevEnd - (periodNs - msNs)
 			cycs[len(cycs)-1] = strings.Replace(cycs[len(cycs)-1], "@SLEEP@", h.Z(sl), 1)
 			if s-prevNow < minStep {
@@ -788,20 +915,26 @@ func holderCase(w *world, evs []hEv) (term string, maxGap int64, minStep int64, 
 				maxGap = s - prevNow
 			}
 		}
-		cycs = append(cycs, h.App("mkCyc", h.Z(cOpen), h.Z(cWrite), h.Z(cCh), "@SLEEP@"))
-		prevEnd = last
-		prevNow = s
-		iters++
-		i += n
-		if n < 3 && i < len(evs) {
-			return "", 0, 0, 0, false
+		if cancelAt != 0 && s > cancelAt {
+			starts++
 		}
+		cycs = append(cycs, h.App("mkCyc", h.Z(cOpen), h.Z(cWrite), h.Z(cCh), "@SLEEP@", f))
+		prevEnd, prevNow = end, s
+		iters++
 	}
 	if len(cycs) > 0 {
 		cycs[len(cycs)-1] = strings.Replace(cycs[len(cycs)-1], "@SLEEP@", "0", 1)
 	}
+	cancel := "None"
+	if cancelAt != 0 {
+		cancel = "(Some " + h.Z(w.rel(cancelAt)) + ")"
+	}
+	alive := "None"
+	if aliveUntil != 0 {
+		alive = "(Some " + h.Z(w.rel(aliveUntil)) + ")"
+	}
 	term = h.App("CHolder", h.Z(periodNs), h.Z(w.rel(t0)),
-		h.App("mkAcq", h.Z(aNow), h.Z(aCh), h.Z(aSpawn)), h.List(cycs), h.Nat(k), h.List(obs))
+		h.App("mkAcq", h.Z(aNow), h.Z(aCh), h.Z(aSpawn)), h.List(cycs), h.Nat(k), h.List(obs), cancel, alive)
 	return term, maxGap, minStep, iters, true
 }
 
@@ -1506,7 +1639,7 @@ func runDeath(sc scenario, emit bool) {
 	checkTimestamps(evs, sc)
 	fillNow(evs)
 	if emit {
-		if term, _, _, _, ok := holderCase(w, evs); ok {
+		if term, _, _, _, ok := holderCase(w, H.rec.all(), 0, 0); ok {
 			addCase(term, map[string]any{"kind": "holder-dead", "scenario": sc})
 		} else {
 			shapeBroken("holder operations cannot be expressed as a run of the holder machine", sc)
@@ -1514,6 +1647,237 @@ func runDeath(sc scenario, emit bool) {
 	}
 	afterDeath(w, H, sc, emit)
 	cancel()
+}
+
+// ------------------------------------------------------------------------------------------------
+// 2b. transient faults of the heartbeat writer: the writer must go on
+
+func errnoOf(name string) error {
+	switch name {
+	case "ENOSPC":
+		return syscall.ENOSPC
+	case "EMFILE":
+		return syscall.EMFILE
+	}
+	return syscall.EIO
+}
+
+// oneFaultHold: the holder acquires; from heartbeat iteration sc.At on, sc.NFaults consecutive operations of kind
+// sc.FaultKind fail (the shim hook returns the error, the back end is not touched); then nothing fails any more.
+// The holder stays alive, its context live.  Returns stopped=true when NO heartbeat operation at all was attempted
+// during the 12 periods after the last fault while a reference goroutine sleeping period-1ms in the same process
+// completed at least 5 rounds (so the silence is not latency); conclusive=false when the run could not decide.
+func oneFaultHold(sc scenario, emit bool) (stopped, conclusive bool, what string) {
+	w := newWorld(root, sc.Mem, nextName("fh-"))
+	H := w.actor(false)
+	O := w.actor(false)
+	var iter, injected, opsAfter int32
+	var lastFault int64
+	inj := func(op *shim.Op) error {
+		t := now()
+		atomic.AddInt32(&injected, 1)
+		atomic.StoreInt64(&lastFault, t)
+		atomic.StoreInt32(&opsAfter, 0)
+		H.rec.add(recOp{Name: op.Name, Path: op.Path, B: t, E: t, Err: true, Injected: true, Flag: op.Flag})
+		return &os.PathError{Op: strings.ToLower(strings.TrimPrefix(op.Name, "f.")), Path: op.Path, Err: errnoOf(sc.Errno)}
+	}
+	H.sh.SetHook(func(op *shim.Op) error {
+		if op.Path != w.hbP {
+			return nil
+		}
+		if op.Name == "OpenFile" {
+			atomic.AddInt32(&iter, 1)
+		}
+		atomic.AddInt32(&opsAfter, 1)
+		it := int(atomic.LoadInt32(&iter)) - 1 // 0-based index of the current iteration
+		if it >= sc.At && it < sc.At+sc.NFaults {
+			switch {
+			case sc.FaultKind == "open" && op.Name == "OpenFile",
+				sc.FaultKind == "write" && op.Name == "f.Write",
+				sc.FaultKind == "chtimes" && op.Name == "Chtimes":
+				return inj(op)
+			}
+		}
+		return nil
+	})
+	ctx, cancel := context.WithCancel(context.Background())
+	defer cancel()
+	if err := H.lock.TryLock(ctx); err != nil {
+		fail(sigOpOutcome, "TryLock on a free lock failed: "+err.Error(), sc)
+		return false, false, ""
+	}
+	defer func() { _ = H.lock.Unlock(context.Background()) }()
+	// wait for the faults to have happened
+	deadline := time.Now().Add(time.Duration(sc.At+sc.NFaults+8) * 3 * period)
+	for int(atomic.LoadInt32(&injected)) < sc.NFaults && time.Now().Before(deadline) {
+		time.Sleep(time.Millisecond)
+	}
+	got := int(atomic.LoadInt32(&injected))
+	if got == 0 {
+		return false, false, "" // the writer never reached the faulty iteration (judged by the cadence oracles)
+	}
+	if got < sc.NFaults {
+		// the writer stopped in the middle of the fault series: the window below decides
+		time.Sleep(2 * period)
+	}
+	// the window: 12 periods after the last fault, with a latency reference in the same process
+	var ref int32
+	refStop := make(chan struct{})
+	go func() {
+		for {
+			select {
+			case <-refStop:
+				return
+			default:
+			}
+			time.Sleep(period - time.Millisecond)
+			atomic.AddInt32(&ref, 1)
+		}
+	}()
+	lf := atomic.LoadInt64(&lastFault)
+	var calls []call
+	for now() < lf+12*periodNs {
+		calls = append(calls, O.do("IsStale"))
+		time.Sleep(4 * time.Millisecond)
+	}
+	close(refStop)
+	after := int(atomic.LoadInt32(&opsAfter)) - 0
+	// opsAfter was reset at each fault and counts the hook calls since, INCLUDING the rest of the faulty iteration;
+	// what matters is a NEW iteration: an OpenFile attempted after the last fault
+	newIter := false
+	for _, o := range H.rec.all() {
+		if o.Name == "OpenFile" && o.Path == w.hbP && o.B > lf {
+			newIter = true
+		}
+	}
+	_ = after
+	refN := int(atomic.LoadInt32(&ref))
+	eval()
+	count("faulthold:" + sc.FaultKind + ":" + sc.Errno)
+	distinct(fmt.Sprintf("faulthold|%s|%s|%d|%d|%v", sc.FaultKind, sc.Errno, sc.At, sc.NFaults, sc.Mem))
+	staleEnd := len(calls) > 0 && calls[len(calls)-1].Stale
+	if emit {
+		au := int64(0)
+		if refN >= 5 {
+			au = lf + 12*periodNs
+		}
+		if term, _, _, its, ok := holderCase(w, H.rec.all(), 0, au); ok {
+			addCase(term, map[string]any{"kind": "holder-faults", "scenario": sc, "iterations": its, "new_iteration_after_last_fault": newIter})
+		} else {
+			shapeBroken("holder operations under transient faults cannot be expressed as a run of the holder machine", sc)
+		}
+	}
+	if !newIter {
+		if refN < 5 {
+			return false, false, ""
+		}
+		return true, true, fmt.Sprintf("holder alive, context not cancelled: after %d transient %s fault(s) (%s) on heartbeat iteration %d the heartbeat writer attempted NO further iteration during 12 periods (a reference goroutine sleeping period-1ms completed %d rounds in the same window); IsStale at the end of the window = %v: the lock stays stale and an overriding contender takes it over",
+			got, sc.FaultKind, sc.Errno, sc.At, refN, staleEnd)
+	}
+	// the writer went on: the lock must not stay stale (a stale answer at the end is judged like any other)
+	if staleEnd {
+		judgeStale(w, H, calls[len(calls)-1], sc)
+	}
+	if emit {
+		evs, _, _ := holderEvents(w, H.rec.all())
+		fillNow(evs)
+		n := 0
+		for i, c := range calls {
+			if v, ok := extractView(w, c.Ops); ok && (i%9 == 0 || c.Stale) && n < 6 && len(evs) > 0 && c.B > evs[0].E {
+				n++
+				addCase(h.App("CView", h.Z(periodNs), w.viewTerm(v), h.Z(w.rel(v.Lo)), h.Z(w.rel(c.E)), h.Bool(c.Stale)),
+					map[string]any{"kind": "view-faults", "scenario": sc, "stale": c.Stale})
+				ce, cl := traceTerms(w, relevant(evs, c.B, c.E))
+				addCase(h.App("CTrace", h.Z(periodNs), ce, cl, h.Z(w.rel(c.B)), h.Z(w.rel(v.Lo)), h.Z(w.rel(c.B)), h.Z(w.rel(c.E)), h.Z(w.rel(v.Lo)), h.Z(w.rel(c.E)), h.Bool(c.Stale)),
+					map[string]any{"kind": "trace-faults", "scenario": sc, "stale": c.Stale})
+			}
+		}
+	}
+	return false, true, ""
+}
+
+func runFaultHold(sc scenario, emit bool) {
+	stopped, conclusive, what := oneFaultHold(sc, emit)
+	if !stopped {
+		if !conclusive {
+			count("faulthold:inconclusive")
+		}
+		return
+	}
+	// confirm 3 of 3
+	for i := 0; i < 3; i++ {
+		st, _, _ := oneFaultHold(sc, false)
+		if !st {
+			count("candidate-not-confirmed:" + sigHbStopped)
+			return
+		}
+	}
+	fail(sigHbStopped, what+" (confirmed 3 of 3)", sc)
+}
+
+// ------------------------------------------------------------------------------------------------
+// 2c. death by cancellation of the holder's context, without Unlock
+
+func runCancelDeath(sc scenario, emit bool) {
+	w := newWorld(root, false, nextName("cd-"))
+	H := w.actor(false)
+	ctx, cancel := context.WithCancel(context.Background())
+	defer cancel()
+	var err error
+	switch sc.Acquire {
+	case "Lock":
+		err = H.lock.Lock(ctx)
+	case "LockWithTimeout":
+		err = H.lock.LockWithTimeout(ctx, 5*time.Second)
+	default:
+		err = H.lock.TryLock(ctx)
+	}
+	if err != nil {
+		fail(sigOpOutcome, sc.Acquire+" on a free lock failed: "+err.Error(), sc)
+		return
+	}
+	// whatever happens, stop the library's goroutine at the end (Unlock cancels through the cancel store)
+	defer func() { _ = H.lock.Unlock(context.Background()) }()
+	if sc.After > 0 {
+		time.Sleep(time.Duration(sc.After)*period + time.Duration(sc.Seed%40)*time.Millisecond)
+	}
+	cancelAt := now()
+	cancel() // the holder dies: its context is cancelled, Unlock is NOT called
+	time.Sleep(5 * period)
+	ops := H.rec.all()
+	evs, shapeOK, why := holderEvents(w, ops)
+	if !shapeOK {
+		shapeBroken(why, sc)
+	}
+	checkTimestamps(evs, sc)
+	fillNow(evs)
+	// the loop checks its context before every iteration: at most one iteration (already past its check) starts
+	// after the cancellation; latency can only make it fewer
+	late := 0
+	var lastLate int64
+	for _, e := range evs {
+		if e.Kind == "Create" && e.Now > cancelAt {
+			late++
+			lastLate = e.B
+		}
+	}
+	eval()
+	count("canceldeath:" + sc.Acquire)
+	distinct(fmt.Sprintf("canceldeath|%s|%d", sc.Acquire, sc.After))
+	if emit {
+		if term, _, _, _, ok := holderCase(w, ops, cancelAt, 0); ok {
+			addCase(term, map[string]any{"kind": "holder-cancelled", "scenario": sc, "iterations_after_cancel": late})
+		} else {
+			shapeBroken("holder operations cannot be expressed as a run of the holder machine", sc)
+		}
+	}
+	if late >= 2 {
+		fail(sigHbUndead, fmt.Sprintf("holder acquired with %s, its context was cancelled %d periods later (no Unlock): %d heartbeat iterations STARTED after the cancellation (the last one %.1f ms after it) — a dead holder keeps refreshing its lock, which is never reported stale",
+			sc.Acquire, sc.After, late, float64(lastLate-cancelAt)/1e6), sc)
+		return
+	}
+	sc2 := sc
+	afterDeath(w, H, sc2, emit)
 }
 
 // ------------------------------------------------------------------------------------------------
@@ -1640,6 +2004,7 @@ func runHold(sc scenario, emit bool, confirmMode bool) (res holdResult) {
 	}
 	// latency reference in the same process and window: a goroutine that sleeps period-1ms like the heartbeat does
 	var refIters int32
+	var refMaxStep int64
 	refStop := make(chan struct{})
 	go func() {
 		for {
@@ -1648,7 +2013,11 @@ func runHold(sc scenario, emit bool, confirmMode bool) (res holdResult) {
 				return
 			default:
 			}
+			t := now()
 			time.Sleep(period - time.Millisecond)
+			if d := now() - t; d > atomic.LoadInt64(&refMaxStep) {
+				atomic.StoreInt64(&refMaxStep, d)
+			}
 			atomic.AddInt32(&refIters, 1)
 		}
 	}()
@@ -1777,7 +2146,12 @@ func runHold(sc scenario, emit bool, confirmMode bool) (res holdResult) {
 	noteMax(0, maxSeenAge)
 
 	// the heartbeat is refreshed every period: steps between consecutive `now`s
-	term, maxGap, minStep, iters, ok := holderCase(w, evs)
+	// alive until the end of the hold — claimed only when the process was demonstrably responsive throughout
+	aliveUntil := int64(0)
+	if int(atomic.LoadInt32(&refIters)) >= sc.Periods/2 && atomic.LoadInt64(&refMaxStep) < 3*periodNs && sc.Periods >= 2 {
+		aliveUntil = ended
+	}
+	term, maxGap, minStep, iters, ok := holderCase(w, hops, 0, aliveUntil)
 	if ok && firstRemoval == int64(1<<62) {
 		if emit && !confirmMode {
 			addCase(term, map[string]any{"kind": "holder-hold", "scenario": sc, "iterations": iters})
@@ -1955,6 +2329,10 @@ func runScenario(sc scenario) {
 		cadenceCheck(sc)
 	case "fault":
 		runFault(sc.Op, sc.Mem)
+	case "faulthold":
+		runFaultHold(sc, true)
+	case "canceldeath":
+		runCancelDeath(sc, true)
 	case "planted":
 		for try := 0; try < 25; try++ {
 			if runPlanted(sc, true) {
@@ -2012,6 +2390,35 @@ func main() {
 			defer func() { <-sem }()
 			runDeath(scenario{Kind: "death", K: k}, true)
 		}(k)
+	}
+	wg.Wait()
+	// 2b/2c. transient faults of the heartbeat writer; death by context cancellation (no Unlock)
+	var extra []scenario
+	errnos := []string{"EIO", "ENOSPC", "EMFILE"}
+	for i, fk := range []string{"open", "write", "chtimes"} {
+		extra = append(extra, scenario{Kind: "faulthold", FaultKind: fk, Errno: errnos[i], At: 1 + i, NFaults: 1})
+		extra = append(extra, scenario{Kind: "faulthold", FaultKind: fk, Errno: errnos[(i+1)%3], At: 0, NFaults: 1 + i%2, Mem: i == 1})
+	}
+	for i := 0; i < r.N(4, 30); i++ {
+		extra = append(extra, scenario{Kind: "faulthold", FaultKind: []string{"open", "write", "chtimes"}[r.Rng.Intn(3)], Errno: errnos[r.Rng.Intn(3)],
+			At: r.Rng.Intn(r.N(8, 60)), NFaults: 1 + r.Rng.Intn(3), Mem: r.Rng.Intn(4) == 0})
+	}
+	for i, aq := range []string{"TryLock", "Lock", "LockWithTimeout"} {
+		extra = append(extra, scenario{Kind: "canceldeath", Acquire: aq, After: 0, Seed: int64(i)})
+		extra = append(extra, scenario{Kind: "canceldeath", Acquire: aq, After: 2 + 3*i, Seed: r.Rng.Int63n(1000)})
+	}
+	for i := 0; i < r.N(3, 20); i++ {
+		extra = append(extra, scenario{Kind: "canceldeath", Acquire: []string{"TryLock", "Lock", "LockWithTimeout"}[r.Rng.Intn(3)], After: 1 + r.Rng.Intn(r.N(20, 200)), Seed: r.Rng.Int63n(1000)})
+	}
+	sem2 := make(chan struct{}, 6)
+	for _, sc := range extra {
+		wg.Add(1)
+		sem2 <- struct{}{}
+		go func(sc scenario) {
+			defer wg.Done()
+			defer func() { <-sem2 }()
+			runScenario(sc)
+		}(sc)
 	}
 	wg.Wait()
 	// 3. real-time holds
